@@ -201,6 +201,11 @@ def err_of_output(out):
     return [2, 8]
 
 
+def vis_ops(case):
+    """the observed ops of a case ('exec' ops only create string garbage and scratch variables)"""
+    return [op for op in case['ops'] if op[0] != 'exec']
+
+
 def name_bytes(name):
     return [ord(c) for c in name]
 
@@ -334,6 +339,13 @@ class C43(core.Check):
             ['dim', 'C!', [1]], ['set', 'C!()', ['l', [['t', 1], ['f', fhex(0.7)]]]], ['get', 'C!()', 0]])
         sc([['dim', 'B%', [1]], ['set', 'B%()', ['l', [['i', 1], ['i', 40000]]]], ['get', 'B%()', 0],
             ['set', 'B%()', ['y', [97, 98]]], ['get', 'B%()', 0]])
+        # string-space pressure in one session: collections must not detach strings converted earlier in the same row
+        press = [['dim', 'A$', [3]]]
+        for rnd in range(30):
+            row = [['y', [48 + rnd % 10, 65 + i] + [97 + (rnd + i) % 26] * 50] for i in range(4)]
+            press += [['set', 'A$()', ['l', row]], ['get', 'A$()', 0], ['set', 'T$', ['y', [104, 105, 48 + rnd % 10]]],
+                      ['get', 'T$', 0]]
+        c.append({'cp': '437', 'mem': 8000, 'ops': press})
         sc([['conv', ['i', 5], 2], ['conv', ['f', fhex(-2.5)], 1], ['conv', ['t', 1], 1], ['conv', ['t', 1], 2],
             ['conv', ['i', 0], 3], ['conv', ['y', [7, 130, 65]], 5], ['conv', ['u', [233, 0x20ac]], 4],
             ['conv', ['i', 10 ** 400], 2], ['conv', ['f', 'inf'], 1], ['conv', ['f', 'nan'], 1], ['conv', ['i', 1], 4],
@@ -585,10 +597,70 @@ class C43(core.Check):
             hist['bad_name'] = hist.get('bad_name', 0) + 1
         return {'cp': cp, 'ops': ops}
 
+    def gen_pressure(self, hist):
+        """one long history in ONE small-memory session: string arrays and scalars are re-assigned through the API
+        (and string garbage is made through BASIC) so that string-space collections happen inside set_variable;
+        after every assignment every variable is read back.  Live data stays far below the free space."""
+        rng = self.rng
+        mem = rng.choice([7500, 8000, 9000, 12000])
+        ops = []
+        basesel = rng.choice([None, 0, 1])
+        b = basesel or 0
+        if basesel is not None:
+            ops.append(['base', basesel])
+        arrays = {}
+        for nm in rng.sample(['P$', 'Q$', 'RR$'], rng.choice([1, 2])):
+            shape = rng.choice([[2], [3], [4], [5], [2, 2], [2, 3], [3, 2]])
+            arrays[nm] = shape
+            ops.append(['dim', nm, [k - 1 + b for k in shape]])
+        scalars = rng.sample(['S$', 'T1$', 'U$', 'N%', 'F#'], rng.choice([1, 2, 3]))
+        maxlen = 40 if sum(len(sh) > 1 for sh in arrays.values()) else 60
+
+        def rstr(tag):
+            k = rng.choice([0, 5, 20, maxlen, maxlen, maxlen])
+            return ['y', ([ord(c) for c in tag] + [rng.randrange(33, 127)] * k)[:maxlen]]
+
+        def nest(shape, tag):
+            if len(shape) == 1:
+                return ['l', [rstr('%s%d' % (tag, i)) for i in range(shape[0])]]
+            return ['l', [nest(shape[1:], '%s%d' % (tag, i)) for i in range(shape[0])]]
+
+        live = []
+        for rnd in range(rng.choice([16, 24, 32, 48])):
+            r = rng.random()
+            if r < 0.7:
+                nm = rng.choice(sorted(arrays))
+                ops.append(['set', nm + '()', nest(arrays[nm], '%d' % rnd)])
+                if nm + '()' not in live:
+                    live.append(nm + '()')
+            elif r < 0.9:
+                nm = rng.choice(scalars)
+                val = rstr('s%d' % rnd) if nm[-1] == '$' else (['i', rng.randint(-32768, 32767)] if nm[-1] == '%'
+                                                               else ['f', fhex(self.rfloat())])
+                ops.append(['set', nm, val])
+                if nm not in live:
+                    live.append(nm)
+            else:
+                ops.append(['exec', 'ZQ$=STRING$(%d,"q")+"r":ZR$=ZQ$+ZQ$:ZR$=""' % rng.choice([20, 60, 100])])
+            for nm in live:
+                ops.append(['get', nm, 0])
+            if live and rng.random() < 0.3:
+                nm = rng.choice(live)
+                if nm.endswith('()'):
+                    sh = arrays[nm[:-2]]
+                    ops.append(['eval', nm[:-2], [rng.randrange(b, k + b) for k in sh]])
+                else:
+                    ops.append(['eval', nm, []])
+        hist['pressure_history'] = hist.get('pressure_history', 0) + 1
+        hist['pressure_ops'] = hist.get('pressure_ops', 0) + len(ops)
+        return {'cp': '437', 'mem': mem, 'ops': ops}
+
     def gen_cases(self, n):
         rng = self.rng
         hist = {}
         out = []
+        for i in range(max(12, n // 15)):
+            out.append(self.gen_pressure(hist))
         for i in range(n):
             r = rng.random()
             if r < 0.45:
@@ -618,8 +690,10 @@ class C43(core.Check):
 
     # -------------------------------------------------------------------------------------------------
     # implementation adapter
-    def session(self, cp):
+    def session(self, cp, mem=None):
         kw = {}
+        if mem:
+            kw['max_memory'] = mem
         if cp != '437':
             cache = self.__dict__.setdefault('_cpdicts', {})
             if cp not in cache:
@@ -633,14 +707,23 @@ class C43(core.Check):
     def impl(self, case):
         side = {}
         out = []
-        with self.session(case['cp']) as s:
-            with core.time_limit(60):
-                for k, op in enumerate(case['ops']):
+        with self.session(case['cp'], case.get('mem')) as s:
+            with core.time_limit(120):
+                k = 0
+                for op in case['ops']:
+                    if op[0] == 'exec':
+                        # BASIC statements that only produce string garbage / scratch variables: not an observed op
+                        try:
+                            s.execute(op[1])
+                        except Exception:
+                            pass
+                        continue
                     try:
                         r = self.do_op(s, op, side, k)
                     except Exception as e:
                         r = common.canon_exc(e)
                     out += [len(r)] + r
+                    k += 1
         self.__dict__.setdefault('_side', {})[core.sha(case)] = side
         return out
 
@@ -677,7 +760,7 @@ class C43(core.Check):
     # model
     def model_term(self, case):
         ops = []
-        for op in case['ops']:
+        for op in vis_ops(case):
             kind = op[0]
             if kind == 'base':
                 ops.append('OBase %d' % op[1])
@@ -799,7 +882,7 @@ class C43(core.Check):
 
     def oracle(self, case, out):
         fr = frames(out)
-        ops = case['ops']
+        ops = vis_ops(case)
         cp = case['cp']
         side = self.__dict__.get('_side', {}).get(core.sha(case), {})
         base = None
@@ -840,6 +923,11 @@ class C43(core.Check):
                     last_ok_set[name] = (val, doc, base, dict(dims))
                     if is_arr and base is None:
                         base = 0
+            if kind in ('get', 'eval') and o[:1] == [2] and (kind == 'eval' or op[2] == 0):
+                nm = op[1].upper().split('(')[0]
+                if nm[-1:] in tuple(SIGILS) and nm[-1:] != '':
+                    return '%s(%r) raised a non-BASIC exception (class %d)' % (
+                        'get_variable' if kind == 'get' else 'evaluate', expr_of(op[1], op[2]) if kind == 'eval' else op[1], o[1])
             if kind == 'get' and op[2] == 0 and o[:1] == [0]:
                 name = op[1].upper()
                 if name in last_ok_set:
@@ -902,8 +990,8 @@ class C43(core.Check):
 
     def nontrivial(self, case, out):
         fr = frames(out)
-        ok_set = any(op[0] in ('set', 'raw') and o == [0] for op, o in zip(case['ops'], fr))
-        ok_get = any(op[0] in ('get', 'eval', 'conv') and o[:1] == [0] and len(o) > 1 for op, o in zip(case['ops'], fr))
+        ok_set = any(op[0] in ('set', 'raw') and o == [0] for op, o in zip(vis_ops(case), fr))
+        ok_get = any(op[0] in ('get', 'eval', 'conv') and o[:1] == [0] and len(o) > 1 for op, o in zip(vis_ops(case), fr))
         return ok_set and ok_get or (case['ops'] and case['ops'][0][0] == 'conv' and ok_get)
 
     # -------------------------------------------------------------------------------------------------
@@ -912,7 +1000,7 @@ class C43(core.Check):
         if finding.get('id') != 'K43a':
             return False
         fr = frames(out) if out else []
-        for op, o in zip(case['ops'], fr):
+        for op, o in zip(vis_ops(case), fr):
             if op[0] == 'set' and o == [2, 7]:
                 name = op[1].upper().split('(')[0]
                 if name.endswith('%') and self._has_float(op[2]):
@@ -935,14 +1023,14 @@ class C43(core.Check):
         ops = case['ops']
         for i in range(len(ops)):
             if len(ops) > 1:
-                yield {'cp': case['cp'], 'ops': ops[:i] + ops[i + 1:]}
+                yield dict(case, ops=ops[:i] + ops[i + 1:])
         for i, op in enumerate(ops):
             if op[0] in ('set', 'conv'):
                 pos = 2 if op[0] == 'set' else 1
                 for v in self.shrink_val(op[pos]):
                     op2 = list(op)
                     op2[pos] = v
-                    yield {'cp': case['cp'], 'ops': ops[:i] + [op2] + ops[i + 1:]}
+                    yield dict(case, ops=ops[:i] + [op2] + ops[i + 1:])
 
     def shrink_val(self, val):
         if val[0] in ('y', 'u', 'l') and val[1]:
